@@ -1,6 +1,6 @@
 _C07_SDK = ["common", "version", "resource", "metrics"]
 H("c07_hist_agg", "C07", "seq", ["harness/c07_histogram.cc"], sdk=_C07_SDK, cxxflags=["-fno-access-control"],
-  args={"quick": ["--seam=agg", "--n=3", "--alphabet=full"], "thorough": ["--seam=agg", "--n=5", "--alphabet=full"]},
+  args={"quick": ["--seam=agg", "--n=3", "--fulln=2", "--alphabet=full"], "thorough": ["--seam=agg", "--n=5", "--fulln=3", "--alphabet=full"]},
   what="real Long/DoubleHistogramAggregation: 10 boundary lists x {int64,double} x {record_min_max on/off, no config}; every multiset of <= n values of the "
        "per-list alphabet (0, denormal, DBL_MIN, 1, 1e300, 2^53, every boundary and its two neighbours), every assignment of its elements to three parts; "
        "each part's point, the merge of the parts in three association orders and the single histogram of all values against a by-definition reference",
